@@ -318,6 +318,21 @@ func (s *scene) forge(a act, rng *rand.Rand, off int) (data []byte, from *world.
 		pub := s.x.ID.PublicAddress
 		raw := reencode(chain[a.Depth-1], chain[a.Depth-1].att.NextAttachment, &pub)
 		return withAppendix(fa, s.ownRecord(fa, under(a.Depth, raw), rng)), from, ""
+	case "forgeknown":
+		// a fresh record at depth d naming the victim's OTHER peer (a router the victim has a session with), carrying the adversary's
+		// key material and signed with the adversary's key; what hangs below is the genuine suffix
+		at := chain[a.Depth-1].att
+		at.Router = s.r1.ID.PublicAddress
+		at.Router.IP = s.x.ID.IP
+		body, err := cbor.Marshal(at)
+		if err != nil {
+			panic(err)
+		}
+		sig, err := s.r1.ID.SignWithContext(body, signingContext(fa))
+		if err != nil {
+			panic(err)
+		}
+		return withAppendix(fa, s.ownRecord(fa, under(a.Depth, append(body, sig...)), rng)), from, "record names " + s.x.ID.IP.String() + " with the adversary's key"
 	case "duprec":
 		// record d twice: the upper copy gets the lower copy as what hangs below it
 		dup := reencode(chain[a.Depth-1], chain[a.Depth-1].raw, nil)
@@ -552,17 +567,20 @@ func run(c *vf.Ctx) {
 	// ---- T: campaigns on longer chains ----
 	maxL := c.Pick(6, 20)
 	ops := []string{"none", "transit", "mutbody", "mutsig", "wrongpeer", "replayold", "outerflip", "outersigflip", "stripouter",
-		"innerflip", "innersigflip", "splicetime", "spliceorigin", "reattribute", "duprec", "reorder", "skipto", "claimdirect"}
+		"innerflip", "innersigflip", "splicetime", "spliceorigin", "reattribute", "forgeknown", "duprec", "reorder", "skipto", "claimdirect"}
 	for k := 0; k < c.Pick(60, 600); k++ {
 		L := rng.Intn(maxL + 1)
 		op := ops[rng.Intn(len(ops))]
 		a := act{Name: "case", Len: L, Op: op, Seen: rng.Intn(2) == 0 && op != "replayold"}
-		needDepth := map[string]bool{"innerflip": true, "innersigflip": true, "splicetime": true, "spliceorigin": true, "reattribute": true, "duprec": true, "reorder": true, "skipto": true}
+		needDepth := map[string]bool{"innerflip": true, "innersigflip": true, "splicetime": true, "spliceorigin": true, "reattribute": true, "forgeknown": true, "duprec": true, "reorder": true, "skipto": true}
 		if needDepth[op] {
 			if L < 2 || (op == "reorder" && L < 3) {
 				continue
 			}
 			a.Depth = 2 + rng.Intn(L-1)
+			if op == "forgeknown" {
+				a.Depth = 2
+			}
 			if op == "reorder" && a.Depth >= L {
 				a.Depth = L - 1
 			}
